@@ -280,7 +280,10 @@ fn run_fault(sb: &Sandbox, sc: &Scenario, faults: &[Fault], bound: usize) -> Res
             let one = [f.clone()];
             match run_in_child(60.0, || child_warm_all(sb, sc, &one, bound)) {
                 ChildOut::Ok(mut v) => out.push(Ok(v.remove(0))),
-                ChildOut::Crashed { sig } => out.push(Err(format!("process died with signal {}", sig))),
+                ChildOut::Crashed { sig } => {
+                    out.push(Err(format!("process died with signal {}", sig)));
+                    break;
+                }
                 ChildOut::Exit { code, stderr_hint } => return Err(Fail::Harness(format!("child exit {}: {}", code, stderr_hint))),
                 ChildOut::Timeout => return Err(Fail::Harness("child timed out".into())),
             }
@@ -290,13 +293,22 @@ fn run_fault(sb: &Sandbox, sc: &Scenario, faults: &[Fault], bound: usize) -> Res
         match run_in_child(600.0, || child_warm_all(sb, sc, faults, bound)) {
             ChildOut::Ok(v) => Ok(v.into_iter().map(Ok).collect()),
             ChildOut::Crashed { sig } => {
-                // find the culprit one by one
+                // find the (first) culprit one by one; what comes after it is not run
+                // (one crashing fault is a verdict, and a change that crashes under many
+                // faults must not turn the search into hours of crash reruns)
                 let mut out = vec![];
                 for f in faults {
                     let one = [f.clone()];
-                    match run_in_child(60.0, || child_warm_all(sb, sc, &one, bound)) {
+                    match run_in_child(120.0, || child_warm_all(sb, sc, &one, bound)) {
                         ChildOut::Ok(mut v) => out.push(Ok(v.remove(0))),
-                        ChildOut::Crashed { sig } => out.push(Err(format!("process died with signal {}", sig))),
+                        ChildOut::Crashed { sig } => {
+                            out.push(Err(format!("process died with signal {}", sig)));
+                            break;
+                        }
+                        ChildOut::Timeout => {
+                            out.push(Err("process did not return within 120 s (killed by the watchdog)".to_string()));
+                            break;
+                        }
                         _ => return Err(Fail::Harness(format!("warm child died with signal {} and the rerun failed", sig))),
                     }
                 }
